@@ -12,3 +12,4 @@ package pool
 //@   requires mp != nil
 //@   ensures  result != nil && fresh(result)
 //@   ensures  base(result.Tags) == 0 || fresh(base(result.Tags))
+//@   ensures  len(result.Tags) == 0
